@@ -87,6 +87,11 @@ CLAIMED["C13"] = dict(
    text="For 10 configurations (import graphs P->L, P->L + P->M->L, P->M->L only, L imported twice through different import sets, M before L; libraries as registered sources and as files) all histories of 14 importer operations up to depth 4 (6) are explored breadth-first with deduplication on the reference module system's canonical state; every transition is replayed on a fresh interpreter on a fresh thread and the operation plus 13 probes (unexported internals unbound, the library blind to the importer's definitions, imported names redefinable without affecting the library, one shared instance) must match.",
    note="reference module system built on refsem: one instance per library per program, library scope = primitives + own imports + own definitions",
    design="7/C13")
+CLAIMED["C14"] = dict(
+   technique="exhaustive enumeration of library graphs x health placements x import-attempt histories, executed in supervised worker processes against a reference loader outcome function and a state invariant through a hook",
+   text="Every directed graph on 1-2 libraries with every assignment of 7 node healths, and every graph on 3 libraries with at most one unhealthy node (thorough: every assignment), is materialised as library files under a program directory (with same-named decoys of different value in the working directory) and as registered sources; every history of import attempts on one interpreter is executed. Each attempt must succeed iff the reference loader finds neither a reachable cycle nor a reachable unhealthy library, and otherwise fail with one of the corresponding error kinds - independently of earlier attempts; after every attempt the in-progress set (hook H2) must be empty and the exports of successfully imported libraries must hold the program-directory values. A configuration that kills or hangs its worker process is a violation (termination).",
+   note="supervised workers (watchdog 10 s, rlimits); hook H2 verif_in_progress; coverage accounting requires every configuration exactly once",
+   design="7/C14")
 NOT_YET = "check not built yet (build in progress, see DESIGN.md section 12)"
 NA = {}
 
